@@ -50,6 +50,14 @@ def gen_case(rng):
              "row": "zero" if k == 0 else ["frac", f2b(rng.random())],
              "u": f2b(0.0 if k < 2 else (1.0 if k == 2 else rng.random())),
              "e": f2b(rng.expovariate(1.0))}
+        if not composite:
+            if rng.random() < 0.3:
+                q["out"] = {"mode": "empty"}
+            else:
+                q["out"] = {"mode": "occupied",
+                            "der": f2b(rng.choice([-0.5, 0.0, rng.random() * 10.0 ** rng.randrange(-2, 3), rng.random() * 10.0 ** rng.randrange(-1, 3)])),
+                            "uc": f2b(rng.choice([0.0, 1.0, rng.random(), rng.random() * 0.1])),
+                            "tpos": [f2b(x) for x in pos()], "tcharge": f2b(rng.choice([1.0, -2.0, rng.uniform(-2, 2)]))}
         case["queries"].append(q)
     return case
 
@@ -165,6 +173,8 @@ def oracle_case(case, out, stats):
         pos = [b2f(x) for x in q["root_pos"]] if case["cell_level"] == 1 or q["leaf_pos"] is None \
             else [b2f(x) for x in q["leaf_pos"]]
         active = tuple(int(Fr(pos[k]) / (Fr(lengths[k]) / cps[k])) for k in range(dim))
+        if tuple(r["active_cell"]) != active:
+            fails.append((qi, "active cell %r, the unit at cell level sits in %r" % (r["active_cell"], active)))
         want_target = tuple((active[k] + seps[rel][k]) % cps[k] for k in range(dim))
         if tuple(r["target"]) != want_target or r["n_extra"] != 1:
             fails.append((qi, "target cell %r, expected translate(active %r, offset %r) = %r"
@@ -189,13 +199,128 @@ def oracle_case(case, out, stats):
             fails.append((qi, "event time off the exact value by %s" % float(gotq - exact)))
         if r["leaf_stamp_after"] != r["time"]:
             fails.append((qi, "active unit not time-sliced to the event time"))
+        m = oracle_out(case, q, r, bound * cf, lengths, stats)
+        if m:
+            fails.append((qi, "send_out_state: " + m))
         stats["glue_queries"] += 1
     return fails, f5
 
 
+def oracle_out(case, q, r, ber, lengths, stats):
+    """LeafUnitCellVetoEventHandler.send_out_state: empty target cell -> in-state returned unchanged; occupied ->
+    one call of the potential's derivative, confirmation  derivative > 0 and uniform(0, bounding rate) < derivative
+    against the bound recorded for the sampled offset / direction, then the velocity is handed over."""
+    oq, o = q.get("out"), r.get("out")
+    if oq is None:
+        return None
+    if o is None:
+        return "not driven"
+    if "exc" in o:
+        return "raised %s" % o["exc"]
+    dim = len(lengths)
+    if not o["same_list"]:
+        return "out-state is not the stored in-state list"
+    if oq["mode"] == "empty":
+        stats["out_empty"] += 1
+        if o["state_ids"] != [[0]] or o["active_vel"] != o["vel_before"] or o["n_uniform"] != 0 or o["pot_calls"]:
+            return "empty target cell: state / velocities changed or a draw was made (%r)" % o
+        return None
+    der, uc = b2f(oq["der"]), b2f(oq["uc"])
+    if o["state_ids"] != [[0], [1]]:
+        return "out-state branches %r" % o["state_ids"]
+    if len(o["pot_calls"]) != 1:
+        return "potential derivative called %d times" % len(o["pot_calls"])
+    vel, sep, charges = o["pot_calls"][0]
+    want_ch = [q["charge"], oq["tcharge"]] if case["charge"] else [f2b(1.0), f2b(1.0)]
+    if vel != o["vel_before"] or charges != want_ch:
+        return "derivative called with velocity %r charges %r" % (vel, charges)
+    apos = [Fr(b2f(x)) for x in r["leaf_pos_after"]]
+    tpos = [Fr(b2f(x)) for x in oq["tpos"]]
+    for k in range(dim):
+        L = Fr(lengths[k])
+        w = (tpos[k] - apos[k]) % L
+        if w > L / 2:
+            w -= L
+        got = Fr(b2f(sep[k]))
+        if min(abs(got - w), abs(abs(got - w) - L)) > Fr(1, 10 ** 12) * L:
+            return "separation %r is not target - active (minimum image) %r" % (float(got), float(w))
+    drawn = 0 + (ber - 0) * uc
+    want_ex = der > 0 and drawn < der
+    if (o["n_uniform"], o["uniform"]) != ((1, f2b(drawn)) if der > 0 else (0, None)):
+        return "confirmation draw: %d uniform calls, value %r; expected uniform(0, %r)" % (o["n_uniform"], o["uniform"], ber)
+    ex = o["target_vel"] is not None
+    if ex != want_ex:
+        return "velocity %s although derivative=%r, uniform(0, bound %r)=%r" % (
+            "handed over" if ex else "kept", der, ber, drawn)
+    if ex:
+        stats["out_exchanged"] += 1
+        if o["target_vel"] != o["vel_before"] or o["active_vel"] is not None or not o["active_stamp_none"] \
+                or o["target_stamp"] != r["time"]:
+            return "after the lifting: target velocity / stamp or active velocity wrong (%r)" % o
+    else:
+        stats["out_rejected"] += 1
+        if o["active_vel"] != o["vel_before"] or o["target_stamp"] is not None:
+            return "unconfirmed event changed the velocities"
+    if o["target_pos"] != oq["tpos"]:
+        return "target position changed"
+    return None
+
+
+# ----------------------------------------------------------------------------------------------
+# correspondence with coq/Model/CellVeto.v, evaluated inside Coq
+HEADER_CV = ("From Coq Require Import ZArith List.\nRequire Import JF.Base.F64 JF.Model.CellVeto JF.Model.CellVetoCases.\n"
+             "Import ListNotations.\nOpen Scope Z_scope.")
+
+
+def zl(xs):
+    return C.coq_list([C.coq_z(x) for x in xs])
+
+
+def coq_walker(dump):
+    rows = []
+    for row in dump["table"]:
+        first = "(%d%%nat, %d)" % (row[0][0], row[0][1])
+        second = "Some (%d%%nat, %d)" % (row[1][0], row[1][1]) if len(row) > 1 else "None"
+        rows.append("(%s, %s)" % (first, second))
+    return "(%d, %d, %s)" % (dump["total"], dump["mean"], C.coq_list(rows))
+
+
+def coq_case(case, out):
+    """-> CVGrid term or None (initialisation failed)"""
+    if "init_exc" in out:
+        return None
+    dim = len(case["cells_per_side"])
+    dirs = []
+    for d in range(dim):
+        bs = C.coq_list(["(%d, %d)" % (per_dir[d][0], per_dir[d][1]) for per_dir in out["bounds"]])
+        dirs.append("(%s, %s, %s)" % (bs, coq_walker(out["upper"][d]), coq_walker(out["lower"][d])))
+    scale = b2f(case["cf_scale"])
+    qs = []
+    for q, r in zip(case["queries"], out["queries"]):
+        cf = (b2f(q["charge"]) if case["charge"] else 1.0) * scale
+        oq = q.get("out")
+        o = r.get("out")
+        if "exc" in r:
+            e = {"AssertionError": "XAssertionError", "IndexError": "XIndexError"}.get(r["exc"])
+            if e is None:
+                e = "(XOk 0 0 [] 0 false)"
+        else:
+            if oq is not None and (o is None or "exc" in o):
+                e = "XIndexError"
+            else:
+                ex = bool(o and o.get("target_vel") is not None)
+                e = "(XOk %d %d %s %d %s)" % (r["time"][0], r["time"][1], zl(r["target"]), r["ber"], C.coq_bool(ex))
+        outq = "None" if oq is None or oq["mode"] == "empty" else "(Some (%d, %d))" % (oq["der"], oq["uc"])
+        qs.append("mkQ %d %s %d %d %d %d %d %d %d %s %s" % (
+            q["dir"], zl(r["active_cell"]), q["stamp"][0], q["stamp"][1], q["speed"], f2b(cf), r["row"], q["u"], q["e"],
+            outq, e))
+    return "CVGrid %s %s %s %s" % (zl(case["cells_per_side"]), C.coq_list([zl(s) for s in out["seps"]]),
+                                  C.coq_list(dirs), C.coq_list(["(%s)" % x for x in qs]))
+
+
 def run(ctx, rng, replay_case=None):
     stats = {"pieces": 0, "integrals": 0, "g_near_breakpoint": 0, "draws_to_coq": 0, "glue_tables": 0,
-             "glue_queries": 0}
+             "glue_queries": 0, "out_empty": 0, "out_exchanged": 0, "out_rejected": 0}
     cases = [replay_case] if replay_case is not None else [gen_case(rng) for _ in range(ctx.n(24, 200))]
     chunks = [cases[i:i + 2] for i in range(0, len(cases), 2)]
     outs = C.run_driver_parallel(ctx, "c18_cellveto", [{"cases": ch} for ch in chunks])
@@ -205,13 +330,26 @@ def run(ctx, rng, replay_case=None):
         f, k = oracle_case(case, out, stats)
         fails += [(case, "%s: %s" % (qi, m)) for qi, m in f]
         f5 += [case for _ in k]
+    # model correspondence inside Coq (bit-exact event time, target cell, bound used, confirmation)
+    terms, owners = [], []
+    for case, out in zip(cases, flat):
+        t = coq_case(case, out)
+        if t is not None:
+            terms.append(t)
+            owners.append(case)
+    neval, bad, nfiles, nok, err = C.eval_cases(ctx, "c18cv", HEADER_CV, terms, "check_cvcase", "cvcase", per_file=2)
+    mism = [owners[i] for i in bad]
     nq = sum(len(c["queries"]) for c in cases)
     dims = {}
     for c in cases:
         key = "x".join(str(n) for n in c["cells_per_side"])
         dims[key] = dims.get(key, 0) + 1
-    return {"fails": fails, "f5": f5, "n": nq,
-            "summary": {"grids": len(cases), "grid_shapes": dims, "send_event_time_calls": nq,
+    return {"fails": fails, "f5": f5, "n": nq, "mism": mism, "coq_err": err,
+            "summary": {"grids": len(cases), "grids_evaluated_in_coq(check_cvcase)": neval,
+                        "grids_model_mismatch": len(mism),
+                        "send_out_state": {"empty_target_cell": stats["out_empty"],
+                                           "occupied_confirmed": stats["out_exchanged"],
+                                           "occupied_rejected": stats["out_rejected"]}, "grid_shapes": dims, "send_event_time_calls": nq,
                         "calls_checked_completely": stats["glue_queries"], "walker_tables_checked": stats["glue_tables"],
                         "f5_class_calls": len(f5)},
             "explanation": "Handler glue: the real LeafUnitCellVetoEventHandler (send_event_time is inherited from "
@@ -220,5 +358,11 @@ def run(ctx, rng, replay_case=None):
                            "in-states, cell level 1 and 2) with a stub estimator; %d send_event_time calls compared "
                            "with the Python oracle (event time bit-exact and against the exact rational, target = "
                            "translate(active cell, offset) by index arithmetic, bound lookup, walker choice by the sign "
-                           "of the charge factor); not modelled in Coq (float glue), send_out_state not driven."
+                           "of the charge factor) AND with the binary64 model coq/Model/CellVeto.v inside Coq "
+                           "(check_cvcase: walker totals / means from max(bound, 0), sampled offset, bit-exact event "
+                           "time via Model/Time.time_add, target = CellIndex.translate, bounding rate, confirmation); "
+                           "LeafUnitCellVetoEventHandler.send_out_state driven for root-level units (empty target cell "
+                           "-> in-state unchanged, occupied -> confirmation against the recorded bound, velocity "
+                           "hand-over); the composite-object handler's send_out_state (lifting) is covered only by the "
+                           "C05 _fill_lifting glue."
                            % (len(cases), nq)}
